@@ -144,6 +144,28 @@ def check_symbolic(case) -> Outcome:
                 break
     if libio.terms_json(f) != before:
         out.fail("differentiate-mutates-formula", f"{f!r}")
+    # history on one formula object: mutate it between differentiations; every derivative is that of the *current* terms
+    if shape == "simple" and case.get("mutations"):
+        from formulaic.parser.types import Factor, Term
+
+        out.label("mutated-between-differentiations")
+        for kind, pos in case["mutations"]:
+            if kind == "del" and len(f) > 1:
+                del f[pos % len(f)]
+            elif kind == "pop" and len(f) > 1:
+                f.pop()
+            elif kind == "append":
+                f.append(Term([Factor(NAMES[pos % len(NAMES)], eval_method="lookup"), Factor("zq", eval_method="lookup")]))
+            elif kind == "set" and len(f):
+                f[pos % len(f)] = Term([Factor(NAMES[pos % len(NAMES)], eval_method="lookup"), Factor("zr", eval_method="lookup")])
+            elif kind == "remove" and len(f) > 1:
+                f.remove(list(f)[pos % len(f)])
+            cur = [[x.expr for x in t.factors] for t in f]
+            got2 = [[x.expr for x in t.factors] for t in f.differentiate(*wrt)]
+            want2 = [ref_diff(t, wrt) for t in cur]
+            if [sorted(g) for g in got2] != [sorted(w) for w in want2]:
+                out.fail("derivative-after-mutation", f"d/d{wrt} after {kind} on the same formula object: terms {cur} -> {got2}, expected {want2}", shape=shape, ordering=ordering, op=kind)
+                break
     out.nontrivial = anyin and anyout
     return out
 
@@ -156,6 +178,7 @@ def gen_symbolic():
             "wrt": st.lists(st.sampled_from(NAMES + QUOTED + CALLS + ["zz"]), min_size=1, max_size=3),
             "ordering": st.sampled_from(["degree", "degree", "sort", "none"]),
             "shape": st.sampled_from(["simple", "simple", "twosided", "multipart", "keywords"]),
+            "mutations": st.lists(st.tuples(st.sampled_from(["del", "pop", "append", "set", "remove"]), st.integers(0, 7)), max_size=3),
         }
     )
 
@@ -174,9 +197,22 @@ def check_numeric(case) -> Outcome:
     s = render_terms(terms, intercept)
     f = Formula(s)
     d = f.differentiate(*wrt)
-    mm = d.get_model_matrix(df, output="numpy", ensure_full_rank=efr)
-    M = np.asarray(mm, dtype=float).reshape(len(df), -1)
-    out.label("efr" if efr else "no-efr")
+    output = case.get("output", "numpy")
+    mat = case.get("mat", "pandas")
+    if mat == "nw-arrow":
+        import pyarrow as pa
+
+        mm = d.get_model_matrix(pa.Table.from_pandas(df, preserve_index=False), output=output, ensure_full_rank=efr)
+    elif mat == "nw-pandas":
+        mm = d.get_model_matrix(df, output=output, ensure_full_rank=efr, materializer="narwhals")
+    else:
+        mm = d.get_model_matrix(df, output=output, ensure_full_rank=efr)
+    out.label("mat:" + mat)
+    M = np.asarray(mm.toarray() if hasattr(mm, "toarray") else mm, dtype=float).reshape(len(df), -1)
+    out.label("efr" if efr else "no-efr", "out:" + output)
+    if M.shape[1] != len(mm.model_spec.column_names):
+        out.fail("matrix-columns-vs-spec", f"{s!r} d/d{wrt} output={output}: matrix has {M.shape[1]} columns, its spec names {list(mm.model_spec.column_names)}", efr=efr, output=output)
+        return out
     orig_terms = [[x.expr for x in t.factors] for t in f]
     struct = list(mm.model_spec.structure)
     if len(struct) != len(orig_terms):
@@ -235,6 +271,8 @@ def gen_numeric():
             "intercept": st.booleans(),
             "wrt": st.lists(st.sampled_from(NUMCOLS), min_size=1, max_size=2, unique=True),
             "efr": st.booleans(),
+            "output": st.sampled_from(["numpy", "pandas", "sparse"]),
+            "mat": st.sampled_from(["pandas", "pandas", "nw-pandas", "nw-arrow"]),
             "data": st.lists(vals, min_size=4, max_size=4),
         }
     )
